@@ -1,2 +1,605 @@
-(* Proofs for C16. *)
-From WI Require Import Lib.Base Lib.Info Model.Curve.
+(* Proofs for C16: exactness of the curve-name inference, absence of panics, acceptance of the
+   genuine parameters, genuineness of the regenerated table. *)
+From WI Require Import Lib.Base Lib.Info Lib.CurveRow Model.Curve.
+From WI Require Import Spec.C16.
+From Coq Require Import ZifyN ZifyNat ZifyBool.
+Open Scope N_scope.
+
+(* ================= small facts about the byte-string helpers ================= *)
+
+Lemma bytes_eqb_eq : forall a b, bytes_eqb a b = true -> a = b.
+Proof.
+  induction a as [|x a IH]; destruct b as [|y b]; cbn [bytes_eqb]; intros H; try discriminate; auto.
+  apply andb_prop in H. destruct H as [H1 H2]. apply N.eqb_eq in H1. subst. f_equal. auto.
+Qed.
+
+Lemma bytes_eqb_refl : forall a, bytes_eqb a a = true.
+Proof. induction a as [|x a IH]; cbn [bytes_eqb]; auto. rewrite N.eqb_refl. auto. Qed.
+
+Lemma oid_eqb_eq : forall a b, oid_eqb a b = true -> a = b.
+Proof.
+  induction a as [|x a IH]; destruct b as [|y b]; cbn [oid_eqb]; intros H; try discriminate; auto.
+  apply andb_prop in H. destruct H as [H1 H2]. apply N.eqb_eq in H1. subst. f_equal. auto.
+Qed.
+
+(* ================= decimal printing is injective =================
+   Go looks the curve up by fieldOrder.String(); the model by dec_of_Z.  That two integers
+   with the same decimal string are equal is what turns "the key matched" into "the prime is
+   the curve's prime". *)
+
+(* value of a digit string, with the weight of its first digit's left neighbour *)
+Fixpoint dval (l : bytes) : N * N :=
+  match l with
+  | [] => (0, 1)
+  | d :: r => let (v, p) := dval r in (v + (d - 48) * p, p * 10)
+  end.
+
+Lemma dec_digits_val : forall fuel n acc, n < 2 ^ N.of_nat fuel ->
+  fst (dval (dec_digits_fuel fuel n acc)) = fst (dval acc) + n * snd (dval acc).
+Proof.
+  induction fuel as [|f IH]; intros n acc Hn.
+  - cbn [dec_digits_fuel]. change (2 ^ N.of_nat 0) with 1 in Hn. assert (n = 0) by lia. subst. lia.
+  - cbn [dec_digits_fuel].
+    assert (Hdm : n = 10 * (n / 10) + n mod 10) by (apply N.div_mod; lia).
+    assert (Hr : n mod 10 < 10) by (apply N.mod_lt; lia).
+    set (q := n / 10) in *. set (r := n mod 10) in *.
+    assert (Hq : q < 2 ^ N.of_nat f).
+    { rewrite Nat2N.inj_succ, N.pow_succ_r' in Hn. apply N.div_lt_upper_bound; lia. }
+    clearbody q r.
+    destruct (q =? 0) eqn:E.
+    + apply N.eqb_eq in E. cbn [dval]. destruct (dval acc) as [v p]. cbn [fst snd].
+      replace (48 + r - 48) with r by lia. rewrite Hdm, E. ring.
+    + rewrite IH.
+      * cbn [dval]. destruct (dval acc) as [v p]. cbn [fst snd].
+        replace (48 + r - 48) with r by lia. rewrite Hdm. ring.
+      * exact Hq.
+Qed.
+
+Lemma dec_of_N_val : forall n, fst (dval (dec_of_N n)) = n.
+Proof.
+  intros n. unfold dec_of_N. rewrite dec_digits_val.
+  - cbn [dval fst snd]. lia.
+  - rewrite Nat2N.inj_succ, N2Nat.id, N.pow_succ_r'. pose proof (N.size_gt n). lia.
+Qed.
+
+Lemma dec_of_N_inj : forall a b, dec_of_N a = dec_of_N b -> a = b.
+Proof. intros a b H. rewrite <- (dec_of_N_val a), <- (dec_of_N_val b), H. reflexivity. Qed.
+
+Lemma dec_digits_head : forall f n h0 acc, 48 <= h0 -> exists h rest,
+  dec_digits_fuel f n (h0 :: acc) = h :: rest /\ 48 <= h.
+Proof.
+  induction f as [|f IH]; intros n h0 acc H0; cbn [dec_digits_fuel].
+  - eauto.
+  - destruct (n / 10 =? 0).
+    + exists (48 + n mod 10), (h0 :: acc). split; [reflexivity | lia].
+    + apply IH. lia.
+Qed.
+
+Lemma dec_of_N_head : forall n, exists h rest, dec_of_N n = h :: rest /\ 48 <= h.
+Proof.
+  intros n. unfold dec_of_N. cbn [dec_digits_fuel].
+  destruct (n / 10 =? 0).
+  - exists (48 + n mod 10), []. split; [reflexivity | lia].
+  - apply dec_digits_head. lia.
+Qed.
+
+Lemma dec_of_Z_inj : forall a b, dec_of_Z a = dec_of_Z b -> a = b.
+Proof.
+  intros a b H.
+  assert (Hz : forall p, [48] <> dec_of_N (Npos p)).
+  { intros p E. apply (f_equal (fun l => fst (dval l))) in E. rewrite dec_of_N_val in E.
+    cbn in E. discriminate. }
+  assert (Hm : forall p l, dec_of_N (Npos p) <> 45 :: l).
+  { intros p l E. destruct (dec_of_N_head (Npos p)) as [h [rest [Hd Hh]]]. rewrite Hd in E.
+    assert (h = 45) by congruence. lia. }
+  destruct a as [|p|p], b as [|q|q]; cbn [dec_of_Z] in H; try reflexivity;
+    try discriminate.
+  - exfalso. eapply Hz; eauto.
+  - exfalso. eapply Hz; eauto.
+  - apply dec_of_N_inj in H. congruence.
+  - exfalso. eapply Hm; eauto.
+  - exfalso. eapply Hm; eauto.
+  - inversion H as [H1]. apply dec_of_N_inj in H1. congruence.
+Qed.
+
+(* ================= the table against the independent constants (T1) ================= *)
+
+Definition is_nil {A} (l : list A) : bool := match l with [] => true | _ => false end.
+
+(* one row: its name is one of the four, and key, coefficients, base point, order, seed are
+   those of that curve, as fixed-length octet strings *)
+Definition row_ok (c : curve_row) : bool :=
+  match nist (c_name c) with
+  | Some k =>
+      bytes_eqb (c_key c) (dec_of_Z (n_p k)) &&
+      Nat.eqb (length (c_a c)) (n_flen k) && (zbe (c_a c) =? n_a k)%Z &&
+      Nat.eqb (length (c_b c)) (n_flen k) && (zbe (c_b c) =? n_b k)%Z &&
+      Nat.eqb (length (c_gx c)) (n_flen k) && (zbe (c_gx c) =? n_gx k)%Z &&
+      Nat.eqb (length (c_gy c)) (n_flen k) && (zbe (c_gy c) =? n_gy k)%Z &&
+      (c_order c =? n_n k)%Z &&
+      (Z.of_N (last_byte (c_gy c) mod 2) =? (n_gy k) mod 2)%Z &&
+      bytes_eqb (c_seed c) (n_seed k) &&
+      negb (is_nil (c_display c)) && prefix_of (c_name c) (c_display c) &&
+      bytes_eqb (first_word (c_display c)) (c_name c) &&
+      on_curve k
+  | None => false
+  end.
+
+Fixpoint keys_distinct (t : list curve_row) : bool :=
+  match t with
+  | [] => true
+  | c :: r => negb (existsb (fun d => bytes_eqb (c_key d) (c_key c)) r) && keys_distinct r
+  end.
+
+Definition all_present (t : list curve_row) : bool :=
+  forallb (fun nm => existsb (fun c => bytes_eqb (c_name c) nm) t) nist_names.
+
+Definition table_ok (t : list curve_row) : bool :=
+  forallb row_ok t && keys_distinct t && all_present t.
+
+(* instance: the table regenerated from the running code on this run *)
+Lemma table_ok_now : table_ok table = true.
+Proof. vm_compute. reflexivity. Qed.
+
+Lemma rows_ok_now : forallb row_ok table = true.
+Proof. vm_compute. reflexivity. Qed.
+
+(* the same, as propositions *)
+Definition row_is (c : curve_row) (k : curve_consts) : Prop :=
+  c_key c = dec_of_Z (n_p k) /\
+  length (c_a c) = n_flen k /\ zbe (c_a c) = n_a k /\
+  length (c_b c) = n_flen k /\ zbe (c_b c) = n_b k /\
+  length (c_gx c) = n_flen k /\ zbe (c_gx c) = n_gx k /\
+  length (c_gy c) = n_flen k /\ zbe (c_gy c) = n_gy k /\
+  c_order c = n_n k /\ c_seed c = n_seed k.
+
+Definition curve_equation (k : curve_consts) : Prop :=
+  ((n_gy k) ^ 2 mod n_p k = ((n_gx k) ^ 3 + n_a k * n_gx k + n_b k) mod n_p k)%Z.
+
+Lemma on_curve_equation : forall k, on_curve k = true -> curve_equation k.
+Proof.
+  intros k H. unfold on_curve in H. apply Z.eqb_eq in H. unfold curve_equation.
+  replace ((n_gy k) ^ 2)%Z with (n_gy k * n_gy k)%Z by ring.
+  replace ((n_gx k) ^ 3)%Z with (n_gx k * n_gx k * n_gx k)%Z by ring.
+  exact H.
+Qed.
+
+Lemma row_ok_spec : forall c, row_ok c = true ->
+  exists k, nist (c_name c) = Some k /\ row_is c k /\ curve_equation k /\
+            (Z.of_N (last_byte (c_gy c) mod 2) = (n_gy k) mod 2)%Z /\
+            c_display c <> [] /\ prefix_of (c_name c) (c_display c) = true /\
+            first_word (c_display c) = c_name c.
+Proof.
+  intros c H. unfold row_ok in H. destruct (nist (c_name c)) as [k|]; [|discriminate].
+  exists k. split; [reflexivity|].
+  repeat (apply andb_prop in H; let H2 := fresh "H" in destruct H as [H H2]).
+  unfold row_is.
+  repeat match goal with
+  | H : bytes_eqb _ _ = true |- _ => apply bytes_eqb_eq in H
+  | H : Nat.eqb _ _ = true |- _ => apply Nat.eqb_eq in H
+  | H : (_ =? _)%Z = true |- _ => apply Z.eqb_eq in H
+  end.
+  repeat split; auto using on_curve_equation.
+  destruct (c_display c); [discriminate | discriminate].
+Qed.
+
+Lemma table_genuine_gen : forall t, forallb row_ok t = true -> forall c, In c t ->
+  exists k, nist (c_name c) = Some k /\ row_is c k /\ curve_equation k.
+Proof.
+  intros t Ht c Hc. rewrite forallb_forall in Ht. destruct (row_ok_spec c (Ht c Hc)) as [k [H1 [H2 [H3 _]]]].
+  eauto.
+Qed.
+
+Lemma table_genuine : forall c, In c table ->
+  exists k, nist (c_name c) = Some k /\ row_is c k /\ curve_equation k.
+Proof. exact (table_genuine_gen table rows_ok_now). Qed.
+
+Lemma all_present_now : all_present table = true.
+Proof. vm_compute. reflexivity. Qed.
+
+Lemma keys_distinct_now : keys_distinct table = true.
+Proof. vm_compute. reflexivity. Qed.
+
+Lemma table_complete_gen : forall t, all_present t = true ->
+  forall nm k, nist nm = Some k -> exists c, In c t /\ c_name c = nm.
+Proof.
+  intros t T nm k H.
+  assert (Hin : In nm nist_names).
+  { unfold nist in H. unfold nist_names.
+    repeat match type of H with
+    | (if bytes_eqb ?a ?b then _ else _) = _ =>
+        let E := fresh "E" in destruct (bytes_eqb a b) eqn:E;
+        [apply bytes_eqb_eq in E; subst; cbn [In]; tauto |]
+    end. discriminate. }
+  unfold all_present in T.
+  rewrite forallb_forall in T. specialize (T nm Hin). apply existsb_exists in T.
+  destruct T as [c [Hc E]]. apply bytes_eqb_eq in E. eauto.
+Qed.
+
+Lemma table_complete : forall nm k, nist nm = Some k -> exists c, In c table /\ c_name c = nm.
+Proof. exact (table_complete_gen table all_present_now). Qed.
+
+Lemma nist_cases : forall nm k, nist nm = Some k ->
+  (nm = bs "P-224" /\ k = nist_p224) \/ (nm = bs "P-256" /\ k = nist_p256) \/
+  (nm = bs "P-384" /\ k = nist_p384) \/ (nm = bs "P-521" /\ k = nist_p521).
+Proof.
+  intros nm k H. unfold nist in H.
+  repeat match type of H with
+  | (if bytes_eqb ?a ?b then _ else _) = _ =>
+      let E := fresh "E" in destruct (bytes_eqb a b) eqn:E;
+      [apply bytes_eqb_eq in E; inversion H; subst; tauto |]
+  end. discriminate.
+Qed.
+
+Lemma nist_flen : forall nm k, nist nm = Some k -> (1 < n_flen k)%nat.
+Proof.
+  intros nm k H. destruct (nist_cases nm k H) as [[_ E]|[[_ E]|[[_ E]|[_ E]]]]; subst k; cbn; lia.
+Qed.
+
+(* ================= the lookup ================= *)
+
+Lemma lookup_some : forall t key c, lookup t key = Some c -> In c t /\ c_key c = key.
+Proof.
+  induction t as [|x t IH]; cbn [lookup]; intros key c H; [discriminate|].
+  destruct (bytes_eqb (c_key x) key) eqn:E.
+  - inversion H; subst. apply bytes_eqb_eq in E. split; [left; reflexivity | exact E].
+  - destruct (IH key c H) as [H1 H2]. split; [right; exact H1 | exact H2].
+Qed.
+
+(* with distinct keys the first hit is the only one: the list lookup is the map lookup *)
+Lemma lookup_unique : forall t key c, keys_distinct t = true -> In c t -> c_key c = key ->
+  lookup t key = Some c.
+Proof.
+  induction t as [|x t IH]; cbn [lookup keys_distinct]; intros key c Hd Hin Hk; [contradiction|].
+  apply andb_prop in Hd. destruct Hd as [Hx Hd]. destruct Hin as [E|Hin].
+  - subst x. rewrite Hk, bytes_eqb_refl. reflexivity.
+  - destruct (bytes_eqb (c_key x) key) eqn:E.
+    + apply bytes_eqb_eq in E. exfalso.
+      apply negb_true_iff in Hx. assert (existsb (fun d => bytes_eqb (c_key d) (c_key x)) t = true).
+      { apply existsb_exists. exists c. split; [exact Hin|]. rewrite Hk, E. apply bytes_eqb_refl. }
+      congruence.
+    + apply IH; assumption.
+Qed.
+
+(* ================= primeFieldParamsMatch ================= *)
+
+(* what a positive answer of the repaired function means *)
+Lemma params_match_true : forall f5 c p, params_match_gen f5 true c p = Ok true ->
+  c_a c = p_a p /\ c_b c = p_b p /\ c_order c = p_order p /\
+  (c_seed c = p_seed p \/ p_seed_bits p = 0%Z) /\
+  ((p_base p = 4 :: c_gx c ++ c_gy c) \/
+   (exists b0, p_base p = b0 :: c_gx c /\ (b0 = 2 \/ b0 = 3) /\ c_gy c <> [] /\
+               b0 = 2 + last_byte (c_gy c) mod 2) \/
+   (p_base p = [0] /\ c_gx c = [0] /\ c_gy c = [0])).
+Proof.
+  intros f5 c p H. unfold params_match_gen in H.
+  destruct (p_base p) as [|b0 rest] eqn:B.
+  { destruct f5; [discriminate|].
+    destruct (_ && _ && _ && _); discriminate. }
+  assert (H' : (if bytes_eqb (c_a c) (p_a p) && bytes_eqb (c_b c) (p_b p) &&
+                   (bytes_eqb (c_seed c) (p_seed p) || (p_seed_bits p =? 0)%Z) &&
+                   (c_order c =? p_order p)%Z
+                then
+                  if b0 =? 0 then
+                    Ok (Nat.eqb (length (b0 :: rest)) 1 && bytes_eqb (c_gx c) [0] && bytes_eqb (c_gy c) [0])
+                  else if (b0 =? 2) || (b0 =? 3) then
+                    Ok (negb (Nat.eqb (length (c_gy c)) 0) &&
+                        (b0 =? 2 + last_byte (c_gy c) mod 2) && bytes_eqb (c_gx c) rest)
+                  else if b0 =? 4 then Ok (bytes_eqb (c_gx c ++ c_gy c) rest)
+                  else Ok false
+                else Ok false) = Ok true) by (destruct f5; exact H).
+  clear H.
+  destruct (bytes_eqb (c_a c) (p_a p) && bytes_eqb (c_b c) (p_b p) &&
+            (bytes_eqb (c_seed c) (p_seed p) || (p_seed_bits p =? 0)%Z) &&
+            (c_order c =? p_order p)%Z) eqn:C; [|discriminate].
+  apply andb_prop in C. destruct C as [C Co]. apply andb_prop in C. destruct C as [C Cs].
+  apply andb_prop in C. destruct C as [Ca Cb].
+  apply bytes_eqb_eq in Ca. apply bytes_eqb_eq in Cb. apply Z.eqb_eq in Co.
+  split; [exact Ca|]. split; [exact Cb|]. split; [exact Co|]. split.
+  { apply orb_prop in Cs. destruct Cs as [Cs|Cs]; [left; apply bytes_eqb_eq; exact Cs | right; apply Z.eqb_eq; exact Cs]. }
+  destruct (b0 =? 0) eqn:E0.
+  { apply N.eqb_eq in E0. subst b0. inversion H' as [H1]. clear H'.
+    apply andb_prop in H1. destruct H1 as [H1 Hy]. apply andb_prop in H1. destruct H1 as [Hl Hx].
+    apply bytes_eqb_eq in Hx. apply bytes_eqb_eq in Hy.
+    destruct rest; [|cbn in Hl; discriminate].
+    right. right. auto. }
+  destruct ((b0 =? 2) || (b0 =? 3)) eqn:E23.
+  { inversion H' as [H1]. clear H'.
+    apply andb_prop in H1. destruct H1 as [H1 Hx]. apply andb_prop in H1. destruct H1 as [Hl Hs].
+    apply bytes_eqb_eq in Hx. apply N.eqb_eq in Hs. subst rest.
+    right. left. exists b0. split; [reflexivity|]. split.
+    { apply orb_prop in E23. destruct E23 as [E|E]; apply N.eqb_eq in E; auto. }
+    split; [|exact Hs].
+    intro Hn. rewrite Hn in Hl. cbn in Hl. discriminate. }
+  destruct (b0 =? 4) eqn:E4; [|discriminate].
+  apply N.eqb_eq in E4. subst b0. inversion H' as [H1]. apply bytes_eqb_eq in H1. subst rest.
+  left. reflexivity.
+Qed.
+
+(* the repaired function never panics: F5 *)
+Lemma params_match_no_panic : forall f6 c p s, params_match_gen true f6 c p <> Panic s.
+Proof.
+  intros f6 c p s. unfold params_match_gen.
+  destruct (p_base p) as [|b0 rest]; [discriminate|].
+  repeat match goal with
+  | |- context [if ?b then _ else _] => destruct b
+  end; discriminate.
+Qed.
+
+Lemma params_match_no_err : forall f5 f6 c p e, params_match_gen f5 f6 c p <> Err e.
+Proof.
+  intros f5 f6 c p e. unfold params_match_gen.
+  destruct f5; destruct (p_base p) as [|b0 rest]; try discriminate;
+  repeat match goal with
+  | |- context [if ?b then _ else _] => destruct b
+  end; discriminate.
+Qed.
+
+(* ================= CurveNameFromParameters ================= *)
+
+Definition base_point_is (k : curve_consts) (base : bytes) : Prop :=
+  (exists x y, base = 4 :: x ++ y /\ length x = n_flen k /\ length y = n_flen k /\
+               zbe x = n_gx k /\ zbe y = n_gy k) \/
+  (exists pre x, base = pre :: x /\ (pre = 2 \/ pre = 3) /\ length x = n_flen k /\
+                 zbe x = n_gx k /\ (Z.of_N pre = 2 + (n_gy k) mod 2)%Z).
+
+(* all five components are those of the curve *)
+Definition exact (k : curve_consts) (p : ec_params) : Prop :=
+  p_field p = oid_prime_field /\ p_prime p = Some (n_p k) /\
+  length (p_a p) = n_flen k /\ zbe (p_a p) = n_a k /\
+  length (p_b p) = n_flen k /\ zbe (p_b p) = n_b k /\
+  p_order p = n_n k /\ base_point_is k (p_base p).
+
+Lemma infer_row_exact : forall t f5 p c, forallb row_ok t = true ->
+  infer_row_gen f5 true t p = Ok (Some c) ->
+  In c t /\ exists k, nist (c_name c) = Some k /\ exact k p /\
+                      (c_seed c = p_seed p \/ p_seed_bits p = 0%Z).
+Proof.
+  intros t f5 p c Ht H. unfold infer_row_gen in H.
+  destruct (oid_eqb (p_field p) oid_prime_field) eqn:Ef; [|discriminate].
+  apply oid_eqb_eq in Ef.
+  destruct (p_prime p) as [z|] eqn:Ep; [|discriminate].
+  destruct (lookup t (dec_of_Z z)) as [c0|] eqn:El; [|discriminate].
+  unfold bind in H. destruct (params_match_gen f5 true c0 p) as [m| |] eqn:M; try discriminate.
+  destruct m; [|discriminate]. inversion H; subst c0. clear H.
+  apply lookup_some in El. destruct El as [Hin Hkey]. split; [exact Hin|].
+  rewrite forallb_forall in Ht.
+  destruct (row_ok_spec c (Ht c Hin)) as [k [Hn [Hrow [_ [Hpar _]]]]].
+  exists k. split; [exact Hn|].
+  destruct Hrow as [Rk [Rla [Ra [Rlb [Rb [Rlx [Rx [Rly [Ry [Ro Rs]]]]]]]]]].
+  apply params_match_true in M. destruct M as [Ma [Mb [Mo [Ms Mbase]]]].
+  split; [|exact Ms].
+  unfold exact. split; [exact Ef|]. split.
+  { rewrite Rk in Hkey. apply dec_of_Z_inj in Hkey. congruence. }
+  rewrite <- Ma, <- Mb, <- Mo. repeat (split; [assumption|]).
+  destruct Mbase as [Hb|[[b0 [Hb [H23 [Hne Hpar']]]]|[Hb [Hx _]]]].
+  - left. exists (c_gx c), (c_gy c). auto.
+  - right. exists b0, (c_gx c). repeat (split; [assumption|]).
+    rewrite <- Hpar. rewrite Hpar'. lia.
+  - exfalso. pose proof (nist_flen _ _ Hn). rewrite Hx in Rlx. cbn in Rlx. lia.
+Qed.
+
+Lemma infer_row_no_panic : forall t f6 p s, infer_row_gen true f6 t p <> Panic s.
+Proof.
+  intros t f6 p s. unfold infer_row_gen.
+  destruct (oid_eqb _ _); [|discriminate]. destruct (p_prime p); [|discriminate].
+  destruct (lookup _ _) as [c|]; [|discriminate]. unfold bind.
+  destruct (params_match_gen true f6 c p) as [m|e|e] eqn:M; try discriminate.
+  exfalso. eapply params_match_no_panic; eauto.
+Qed.
+
+Lemma infer_row_no_err : forall t f5 f6 p e, infer_row_gen f5 f6 t p <> Err e.
+Proof.
+  intros t f5 f6 p e. unfold infer_row_gen.
+  destruct (oid_eqb _ _); [|discriminate]. destruct (p_prime p); [|discriminate].
+  destruct (lookup _ _) as [c|]; [|discriminate]. unfold bind.
+  destruct (params_match_gen f5 f6 c p) as [m|e'|e'] eqn:M; try discriminate.
+  exfalso. eapply params_match_no_err; eauto.
+Qed.
+
+(* ----- the statements about [infer] (the code as it stands) ----- *)
+
+Lemma flags_now : has_f5 = true /\ has_f6 = true.
+Proof. split; reflexivity. Qed.
+
+Lemma infer_exact : forall p nm, infer p = Ok (Some nm) ->
+  exists k, nist nm = Some k /\ exact k p.
+Proof.
+  intros p nm H. unfold infer, infer_row in H. unfold bind in H.
+  destruct (infer_row_gen has_f5 has_f6 table p) as [r| |] eqn:E; try discriminate.
+  destruct r as [c|]; cbn [option_map] in H; [|discriminate]. inversion H; subst nm.
+  change has_f6 with true in E.
+  destruct (infer_row_exact table has_f5 p c rows_ok_now E) as [_ [k [Hn [Hx _]]]]. eauto.
+Qed.
+
+Lemma infer_no_panic : forall p s, infer p <> Panic s.
+Proof.
+  intros p s H. unfold infer, infer_row, bind in H.
+  destruct (infer_row_gen has_f5 has_f6 table p) eqn:E; try discriminate.
+  inversion H; subst. change has_f5 with true in E. eapply infer_row_no_panic; eauto.
+Qed.
+
+Lemma infer_total : forall p, exists r, infer p = Ok r.
+Proof.
+  intros p. unfold infer, infer_row, bind.
+  destruct (infer_row_gen has_f5 has_f6 table p) eqn:E.
+  - eauto.
+  - exfalso. eapply infer_row_no_err; eauto.
+  - exfalso. change has_f5 with true in E. eapply infer_row_no_panic; eauto.
+Qed.
+
+(* any deviation in any component: no name *)
+Lemma infer_deviation : forall p,
+  (forall nm k, nist nm = Some k -> ~ exact k p) -> infer p = Ok None.
+Proof.
+  intros p H. destruct (infer_total p) as [[nm|] E]; [|exact E].
+  exfalso. destruct (infer_exact p nm E) as [k [Hn Hx]]. exact (H nm k Hn Hx).
+Qed.
+
+(* the layers above: the displayed string, the attribute list, the containers *)
+Lemma curve_name_no_panic : forall p s, curve_name p <> Panic s.
+Proof.
+  intros p s H. unfold curve_name, curve_name_gen, bind in H.
+  destruct (infer_row_gen has_f5 has_f6 table p) eqn:E; try discriminate.
+  inversion H; subst. change has_f5 with true in E. eapply infer_row_no_panic; eauto.
+Qed.
+
+Lemma explicit_attrs_no_panic : forall p s, explicit_attrs p <> Panic s.
+Proof.
+  intros p s H. unfold explicit_attrs, explicit_attrs_gen in H.
+  fold (curve_name p) in H. unfold bind in H.
+  destruct (curve_name p) eqn:E; try discriminate.
+  inversion H; subst. eapply curve_name_no_panic; eauto.
+Qed.
+
+Lemma container_info_no_panic : forall kind pem state p s, container_info kind pem state p <> Panic s.
+Proof.
+  intros kind pem state p s H. unfold container_info, container_info_gen in H.
+  fold (explicit_attrs p) in H. unfold bind in H.
+  destruct (state =? 2).
+  - destruct (explicit_attrs p) eqn:E.
+    + repeat match type of H with
+      | (if ?b then _ else _) = _ => destruct b
+      end; discriminate.
+    + discriminate.
+    + inversion H; subst. eapply explicit_attrs_no_panic; eauto.
+  - repeat match type of H with
+    | (if ?b then _ else _) = _ => destruct b
+    end; discriminate.
+Qed.
+
+(* the displayed name is the one of the inferred row *)
+Lemma curve_name_of_infer : forall p shown, curve_name p = Ok shown -> shown <> [] ->
+  exists c, In c table /\ infer p = Ok (Some (c_name c)) /\ shown = c_display c.
+Proof.
+  intros p shown H Hne. unfold curve_name, curve_name_gen, bind in H.
+  unfold infer, infer_row, bind.
+  destruct (infer_row_gen has_f5 has_f6 table p) as [r| |] eqn:E; try discriminate.
+  inversion H as [H1]. destruct r as [c|]; [|congruence].
+  exists c. change has_f6 with true in E.
+  destruct (infer_row_exact table has_f5 p c rows_ok_now E) as [Hin _].
+  cbn [option_map]. auto.
+Qed.
+
+(* ================= the executable spec (T3) accepts whatever the model infers ================= *)
+
+Lemma firstn_len_app : forall (x y : bytes), firstn (length x) (x ++ y) = x.
+Proof. induction x as [|a x IH]; intros y; cbn [length firstn app]; [destruct y; reflexivity | rewrite IH; reflexivity]. Qed.
+
+Lemma skipn_len_app : forall (x y : bytes), skipn (length x) (x ++ y) = y.
+Proof. induction x as [|a x IH]; intros y; cbn [length skipn app]; [reflexivity | apply IH]. Qed.
+
+Lemma base_point_is_generator : forall k base, base_point_is k base -> base_is_generator k base = true.
+Proof.
+  intros k base [[x [y [Hb [Hlx [Hly [Hx Hy]]]]]]|[pre [x [Hb [Hpre [Hlx [Hx Hs]]]]]]]; subst base.
+  - cbn [base_is_generator]. rewrite <- Hlx at 2 3. rewrite firstn_len_app, skipn_len_app.
+    rewrite app_length, Hlx, Hly, Hx, Hy, !Z.eqb_refl.
+    replace (Nat.eqb (n_flen k + n_flen k) (2 * n_flen k)) with true; [reflexivity|].
+    symmetry. apply Nat.eqb_eq. lia.
+  - destruct Hpre; subst pre; cbn [base_is_generator N.eqb Pos.eqb orb andb];
+      rewrite Hlx, Hx, Nat.eqb_refl, Z.eqb_refl; cbn [andb]; apply Z.eqb_eq; exact Hs.
+Qed.
+
+Lemma exact_spec : forall k p, exact k p ->
+  spec_components true k (p_prime p) (p_a p) (p_b p) (p_base p) (p_order p) = true.
+Proof.
+  intros k p [_ [Hp [_ [Ha [_ [Hb [Ho Hbase]]]]]]].
+  unfold spec_components. rewrite Hp, Ha, Hb, Ho, !Z.eqb_refl.
+  rewrite (base_point_is_generator k _ Hbase). reflexivity.
+Qed.
+
+Lemma shown_passes_spec : forall p shown, curve_name p = Ok shown -> shown <> [] ->
+  shown_ok shown (p_prime p) (p_a p) (p_b p) (p_base p) (p_order p) = true.
+Proof.
+  intros p shown H Hne. unfold curve_name, curve_name_gen, bind in H.
+  destruct (infer_row_gen has_f5 has_f6 table p) as [r| |] eqn:E; try discriminate.
+  inversion H as [H1]. destruct r as [c|]; [|congruence].
+  change has_f6 with true in E.
+  destruct (infer_row_exact table has_f5 p c rows_ok_now E) as [Hin [k [Hn [Hx _]]]].
+  pose proof rows_ok_now as T. rewrite forallb_forall in T.
+  destruct (row_ok_spec c (T c Hin)) as [k' [Hn' [_ [_ [_ [_ [_ Hfw]]]]]]].
+  unfold shown_ok. rewrite Hfw, Hn. apply exact_spec. exact Hx.
+Qed.
+
+(* ================= the genuine parameters are recognised ================= *)
+
+Definition fe (k : curve_consts) (z : Z) : bytes := N_to_be (n_flen k) (Z.to_N z).
+
+Definition genuine_base (k : curve_consts) (compressed : bool) : bytes :=
+  if compressed then Z.to_N (2 + (n_gy k) mod 2) :: fe k (n_gx k)
+  else 4 :: fe k (n_gx k) ++ fe k (n_gy k).
+
+(* SEC1 C.2 ECParameters of the curve: field elements as octet strings of the field length, the
+   base point uncompressed or compressed, the seed absent or the standard's, any cofactor *)
+Definition genuine_params (k : curve_consts) (compressed with_seed : bool) (cofactor : Z) : ec_params :=
+  mk_ecp oid_prime_field (Some (n_p k)) None (fe k (n_a k)) (fe k (n_b k))
+         (if with_seed then n_seed k else []) (if with_seed then 160 else 0)%Z
+         (genuine_base k compressed) (n_n k) cofactor.
+
+Lemma genuine_accepted : forall nm k compressed with_seed cofactor, nist nm = Some k ->
+  infer (genuine_params k compressed with_seed cofactor) = Ok (Some nm).
+Proof.
+  intros nm k compressed with_seed cofactor H.
+  destruct (nist_cases nm k H) as [[E1 E2]|[[E1 E2]|[[E1 E2]|[E1 E2]]]]; subst nm k;
+    destruct compressed, with_seed; vm_compute; reflexivity.
+Qed.
+
+Lemma genuine_is_exact : forall nm k compressed with_seed cofactor, nist nm = Some k ->
+  exact k (genuine_params k compressed with_seed cofactor).
+Proof.
+  intros nm k compressed with_seed cofactor H.
+  destruct (infer_exact _ _ (genuine_accepted nm k compressed with_seed cofactor H)) as [k' [Hn Hx]].
+  congruence.
+Qed.
+
+(* the whole route: each container reports "Curve (inferred)" with a name that starts with the
+   curve's, for the genuine parameters in each encoding (finite sweep) *)
+Definition shows_inferred (nm : bytes) (r : result info) : bool :=
+  match r with
+  | Ok i => existsb (fun nv => bytes_eqb (fst nv) (bs "Curve (inferred)") && prefix_of nm (snd nv)) (i_attrs i)
+  | _ => false
+  end.
+
+Definition container_forms : list (N * bool) :=
+  [(0, false); (1, false); (2, false); (0, true); (1, true); (2, true); (3, true)].
+
+Lemma genuine_reported : forall nm k compressed with_seed form, nist nm = Some k ->
+  In form container_forms ->
+  shows_inferred nm (container_info (fst form) (snd form) 2 (genuine_params k compressed with_seed 1)) = true.
+Proof.
+  intros nm k compressed with_seed form H Hf.
+  unfold container_forms in Hf. cbn [In] in Hf.
+  destruct (nist_cases nm k H) as [[E1 E2]|[[E1 E2]|[[E1 E2]|[E1 E2]]]]; subst nm k;
+    destruct compressed, with_seed;
+    repeat (destruct Hf as [Hf|Hf]; [subst form; vm_compute; reflexivity|]); contradiction.
+Qed.
+
+(* ================= refutation witnesses on the code before the repairs ================= *)
+
+(* F5: P-256, everything genuine, base point the empty octet string *)
+Definition witness_F5 : ec_params :=
+  mk_ecp oid_prime_field (Some (n_p nist_p256)) None (fe nist_p256 (n_a nist_p256)) (fe nist_p256 (n_b nist_p256))
+         [] 0%Z [] (n_n nist_p256) 1%Z.
+
+Lemma F5_panics_before_repair : is_panic (infer_gen false true witness_F5) = true /\
+  is_panic (container_info_gen false true table 0 false 2 witness_F5) = true.
+Proof. split; vm_compute; reflexivity. Qed.
+
+(* F6: P-256, base point 02 || Gx although Gy is odd *)
+Definition witness_F6 : ec_params :=
+  mk_ecp oid_prime_field (Some (n_p nist_p256)) None (fe nist_p256 (n_a nist_p256)) (fe nist_p256 (n_b nist_p256))
+         [] 0%Z (2 :: fe nist_p256 (n_gx nist_p256)) (n_n nist_p256) 1%Z.
+
+Lemma F6_inferred_before_repair : infer_gen true false witness_F6 = Ok (Some (bs "P-256")).
+Proof. vm_compute. reflexivity. Qed.
+
+Lemma F6_not_the_base_point : ~ base_point_is nist_p256 (p_base witness_F6).
+Proof.
+  intros [[x [y [H _]]]|[pre [x [H [_ [_ [_ Hs]]]]]]].
+  - cbn [p_base witness_F6] in H. inversion H.
+  - cbn [p_base witness_F6] in H. inversion H; subst pre.
+    vm_compute in Hs. discriminate.
+Qed.
+
+Lemma F6_rejected_now : infer witness_F6 = Ok None /\ infer witness_F5 = Ok None.
+Proof. split; vm_compute; reflexivity. Qed.
